@@ -439,11 +439,15 @@ def matches_variants(prog, fn, sbb, adt):
     if p is None or "p" in p:
         return None
     l = p["l"]
-    # follow one move
+    # follow plain moves / copies (a flag handed to a helper that was spliced in travels through a few temporaries)
     wd = whole_defs(fn, l)
-    if len(wd) == 1 and wd[0].kind == "stmt" and wd[0].rv["k"] == "use" and op_place(wd[0].rv["op"]) is not None:
-        l = op_place(wd[0].rv["op"])["l"]
-        wd = whole_defs(fn, l)
+    for _ in range(8):
+        if len(wd) == 1 and wd[0].kind == "stmt" and wd[0].rv["k"] == "use" and op_place(wd[0].rv["op"]) is not None \
+                and "p" not in op_place(wd[0].rv["op"]):
+            l = op_place(wd[0].rv["op"])["l"]
+            wd = whole_defs(fn, l)
+        else:
+            break
     if len(wd) < 2:
         return None
     a = prog.adts.get(adt)
